@@ -312,6 +312,18 @@ func main() {
 		return
 	}
 	if si, sn, ok := shard.Child(); ok {
+		if si == 0 {
+			probe := []event{{Kind: "join", Node: 2, Via: 1}, {Kind: "snapshot", Node: 1}, {Kind: "restart", Node: 2}}
+			w1, _, _ := build(probe)
+			c1 := w1.canon()
+			w1.Close()
+			w2, _, _ := build(probe)
+			c2 := w2.canon()
+			w2.Close()
+			if c1 != c2 {
+				ev.Tool("the simulated cluster is not deterministic: two runs of the same history differ\n%s\n%s", c1, c2)
+			}
+		}
 		var res result
 		res.St = seq.BFS(seq.Config[*wld, event]{
 			Depth: depth, Workers: 1, Deadline: time.Now().Add(budget),
